@@ -260,6 +260,14 @@ fn run(ctx: &mut Ctx) {
     let cfgs = vec![Cfg::default(), r.clone()];
     let u1 = Universe::u1();
     ctx.exhaustive("U1 x {plain,-r}", u1.subset_count() * 2, &|i| Case::new(u1.subset(i / 2 + 1), cfgs[(i % 2) as usize].clone()), &case_fn);
+    let s5 = SmallSubsets::abc3(5);
+    let s4n = SmallSubsets::abc3(4).count();
+    ctx.exhaustive("abc3 subsets <=4", s4n, &|i| Case::new(s5.subset(i), Cfg::default()), &case_fn);
+    if ctx.tier == Tier::Thorough {
+        let n5 = s5.count() - s4n;
+        ctx.exhaustive("abc3 5-subsets", n5, &|i| Case::new(s5.subset(s4n + i), Cfg::default()), &case_fn);
+        ctx.exhaustive("abc3 subsets <=4 -r", s4n, &|i| Case::new(s5.subset(i), cfgs[1].clone()), &case_fn);
+    }
     let urep = Universe::rep_families();
     ctx.exhaustive("Urep x {plain,-r}", urep.subset_count() * 2, &|i| Case::new(urep.subset(i / 2 + 1), cfgs[(i % 2) as usize].clone()), &case_fn);
     let u3a = Universe::u3a();
